@@ -8,7 +8,7 @@
    The full statement (every raising step leaves vis unchanged) is false of the faithful model and of
    hl7apy: C12_atomic_refuted_* (F9: replacement by an element of the other validation level,
    refused datatype change, value assignment through a lazily created element, partly admissible
-   value; F20: refused datatype object).  C12_atomic_partial_* prove it for the rejection causes
+   value).  C12_atomic_partial_* prove it for the rejection causes
    where it holds: a refused add (wrong class or name, foreign child, cardinality, level, version),
    an assignment whose child name does not resolve or whose value the parser refuses, an assignment
    refused at admission time when it would append, an element of another name, a deletion of an
@@ -38,7 +38,7 @@ Print Assumptions C12_atomic_partial_add.
 
 (* assignment of a text: an unknown or foreign child name is refused with the store untouched *)
 Theorem C12_atomic_partial_assign_name :
-  forall (t : tables) (e : ec) le (x : bool) (p : nat) (name txt : str) (i : nat) (s : store) (ex : exn),
+  forall (t : tables) (e : ec) le (x : bool) (p : nat) (name txt : str) (i : Z) (s : store) (ex : exn),
   fcr t (getn s p) (upper name) = Err ex ->
   set_child t e le x p name (VText txt) i s = (s, Err ex).
 Proof. intros. now apply set_child_rejected_name. Qed.
@@ -47,7 +47,7 @@ Print Assumptions C12_atomic_partial_assign_name.
 (* assignment of a text the child parser refuses (too long, too many components under STRICT, a
    datatype the version does not know ...): refused with the store untouched, replacement included *)
 Theorem C12_atomic_partial_assign_value :
-  forall (t : tables) (e : ec) le (x : bool) (p : nat) (name txt : str) (i : nat) (s s1 : store) cn cr (ex : exn),
+  forall (t : tables) (e : ec) le (x : bool) (p : nat) (name txt : str) (i : Z) (s s1 : store) cn cr (ex : exn),
   fcr t (getn s p) (upper name) = Ok (cn, cr) ->
   parse_child t e le p cn cr txt s = (s1, Err ex) ->
   set_child t e le x p name (VText txt) i s = (s, Err ex).
@@ -59,7 +59,7 @@ Print Assumptions C12_atomic_partial_assign_value.
    under STRICT, class, level, version - every element allocated before the call is exactly as it was
    (the parsed copy that was refused is garbage above the old allocation pointer) *)
 Theorem C12_atomic_partial_assign_append :
-  forall (t : tables) (e : ec) le (x : bool) (p : nat) (name txt : str) (i : nat) (s s' : store) (ex : exn) cn cr,
+  forall (t : tables) (e : ec) le (x : bool) (p : nat) (name txt : str) (i : Z) (s s' : store) (ex : exn) cn cr,
   set_child t e le x p name (VText txt) i s = (s', Err ex) ->
   ex <> PyValueError ->
   p < s_next s ->
@@ -77,7 +77,7 @@ Print Assumptions C12_atomic_partial_assign_append.
 
 (* assignment of an element that carries another name (seg.pid_3 = Field('PID_5')) *)
 Theorem C12_atomic_partial_assign_wrong_element :
-  forall (t : tables) (e : ec) le (x : bool) (p : nat) (name : str) (c i : nat) (s : store) cn cr,
+  forall (t : tables) (e : ec) le (x : bool) (p : nat) (name : str) (c : nat) (i : Z) (s : store) cn cr,
   fcr t (getn s p) (upper name) = Ok (cn, cr) ->
   opt_eqb (n_name (getn s c)) (Some cn) = false ->
   set_child t e le x p name (VElem c) i s = (s, Err (HL7 EChildNotValid)).
@@ -90,7 +90,7 @@ Theorem C12_atomic_partial_delete : forall (t : tables) (x : nat) (name : str) (
 Proof. intros. eapply del_child_rejected; eauto. Qed.
 Print Assumptions C12_atomic_partial_delete.
 
-(* ---------- the full statement is false: F9 / F20 in the model (v2.5 tables) ---------- *)
+(* ---------- the full statement is false: F9 in the model (v2.5 tables) ---------- *)
 
 Definition t25 := Gen.Tables_v2_5.tables.
 Definition e25 : ec := mk_ec "|" "^" "~" "\" "&" None.
@@ -134,12 +134,12 @@ Theorem C12_atomic_refuted_partial_value :
 Proof. vm_compute. reflexivity. Qed.
 Print Assumptions C12_atomic_refuted_partial_value.
 
-(* F20  seg.pid_3 = ST('z') on a CX field: ChildNotValid, an empty PID_3 repetition stays attached *)
-Theorem C12_atomic_refuted_datatype_object :
+(* F20 (fixed by b690ba1): seg.pid_3 = ST('z') on a CX field is still refused (ChildNotValid) but the
+   element it was building is detached: the target is unchanged *)
+Example C12_datatype_object_instance :
   before_after [ONewSeg TOLERANT "PID"; OSetAttr 0 (nm "pid_3") (HText "A")] (OSetAttr 0 (nm "pid_3") (HDt "ST" "z"))
-  = (unbs "PID|||A", 5, unbs "PID|||A~").
+  = (unbs "PID|||A", 5, unbs "PID|||A").
 Proof. vm_compute. reflexivity. Qed.
-Print Assumptions C12_atomic_refuted_datatype_object.
 
 (* the partial theorems are not vacuous: a rejected add (second PID_1 under STRICT) and a rejected
    assignment (value too long) that leave the encoding as it was *)
